@@ -627,7 +627,7 @@ func c07Class(p c07Prog) string {
 func (c07) Describe(tier string) fw.Description {
 	return fw.Description{
 		Level: "model_checking",
-		Rule: "exhaustive product of " + fmt.Sprint(len(c07Items)) + " SELECT items in item sets (plain aggregates, agg*lit, agg*lit+lit, agg+agg, parenthesised, aggregate over an expression argument, aggregates of two columns) x " + fmt.Sprint(len(c07Havings)) + " HAVING predicates (selected aliases, unselected aggregates, AND/OR/NOT) x " + fmt.Sprint(len(c07Orders)) + " ORDER BY lists x LIMIT {none,1,2,5} x DISTINCT, each on 7 datasets (1-3 interleaved groups, NULLs, ties) in one event-time tumbling window on the real engine; oracle = relational reference (ref.Agg per group -> item arithmetic -> HAVING -> multiset equality, sortedness by the ORDER BY keys, LIMIT keeps a prefix of the order, DISTINCT, no helper/unselected column); non-trivial = a batch with >= 2 rows; plus consecutive batches (two tumbling windows; HAVING over an alias / an unselected aggregate / an expression item, DISTINCT, ORDER BY LIMIT): every batch must still read at the end of the run what it read when it was delivered",
+		Rule: "exhaustive product of " + fmt.Sprint(len(c07Items)) + " SELECT items in item sets (plain aggregates, agg*lit, agg*lit+lit, agg+agg, parenthesised, aggregate over an expression argument, aggregates of two columns) x " + fmt.Sprint(len(c07Havings)) + " HAVING predicates (selected aliases, unselected aggregates, AND/OR/NOT) x " + fmt.Sprint(len(c07Orders)) + " ORDER BY lists x LIMIT {none,1,2,5} x DISTINCT, each on 8 datasets (1-3 interleaved groups, NULLs, ties, text keys that read as numbers) in one event-time tumbling window on the real engine; oracle = relational reference (ref.Agg per group -> item arithmetic -> HAVING -> multiset equality, sortedness by the ORDER BY keys, LIMIT keeps a prefix of the order, DISTINCT, no helper/unselected column); non-trivial = a batch with >= 2 rows; plus consecutive batches (two tumbling windows; HAVING over an alias / an unselected aggregate / an expression item, DISTINCT, ORDER BY LIMIT): every batch must still read at the end of the run what it read when it was delivered",
 		Bounds:      map[string]any{"programs": "see evaluations", "datasets": 5},
 		Assumptions: []string{"ties in ORDER BY are compared as multisets", "ordering of NULL keys is not asserted"},
 	}
